@@ -134,8 +134,8 @@ OpFor(ops, inds, s) == ops[((PosIn(inds, s) - 1) % Len(ops)) + 1]
 \* ... a dimension -1 at a targeted site means "whatever the operator needs" ...
 EffDims(ops, dims, inds) ==
   [s \in 1..Len(dims) |-> IF dims[s] = -1 /\ s \in SeqRange(inds) THEN OpFor(ops, inds, s).r ELSE dims[s]]
-\* ... and an operator larger than its site is overlaid on the following targeted sites until
-\* their dimensions multiply to its size (sites of dimension 1 in between carry no index).
+\* ... and an operator larger than its site is overlaid on the following sites, up to the
+\* targeted site at which the dimensions multiply to its size.
 \* st = [cur |-> sites of the open group, groups |-> closed groups, ok |-> in the documented domain]
 RECURSIVE EmbedScan(_, _, _, _, _)
 EmbedScan(ops, dims, inds, s, st) ==
@@ -157,7 +157,11 @@ EmbedScan(ops, dims, inds, s, st) ==
      LET op  == OpFor(ops, inds, st.cur[1])
          acc == IProd(Sub(dims, st.cur)) * dims[s]
      IN  IF ~tgt
-         THEN IF dims[s] = 1 THEN EmbedScan(ops, dims, inds, s + 1, st)
+         \* a site strictly inside an overlaid block belongs to the block even when it is not
+         \* targeted itself (this is how ham_j1j2 places S(x)1(x)S on the pair (i, i+2)); the block
+         \* must end on a targeted site
+         THEN IF op.r % acc = 0 /\ acc < op.r
+              THEN EmbedScan(ops, dims, inds, s + 1, [st EXCEPT !.cur = st.cur \o <<s>>])
               ELSE [st EXCEPT !.ok = FALSE]
          ELSE IF acc = op.r
          THEN EmbedScan(ops, dims, inds, s + 1,
